@@ -203,7 +203,7 @@ def oracle(times, types, batches, outs, other_task, passthrough, skew=False, rev
             t = at - START
             if unit != "docs/s":
                 return ("unit", f"unit {unit!r}")
-            if val < 0:
+            if val is None or val < 0:
                 return ("negative", f"value {val}")
             if not any(abs(times[i] - t) < 1e-9 and abs(rt - times[i]) < 1e-9 for i in delivered):
                 return ("time-mismatch", f"value at t={t} rel={rt} matches no delivered sample")
@@ -258,8 +258,18 @@ def oracle(times, types, batches, outs, other_task, passthrough, skew=False, rev
 
 def check_history(times, types, part_idx, other_task, passthrough, res, skew=False, rev=False, zeros=None):
     batches = partitions_of(len(times))[part_idx]
-    outs = run_history(times, types, batches, other_task, passthrough, skew, rev, zeros)
-    v = oracle(times, types, batches, outs, other_task, passthrough, skew, rev, zeros)
+    try:
+        outs = run_history(times, types, batches, other_task, passthrough, skew, rev, zeros)
+    except Exception as ex:  # noqa
+        outs = None
+        v = ("calculator-raises", f"{type(ex).__name__}: {ex}")
+    if outs is not None:
+        try:
+            v = oracle(times, types, batches, outs, other_task, passthrough, skew, rev, zeros)
+        except (TypeError, ValueError, IndexError, KeyError) as ex:
+            # values of an unexpected shape (None, wrong tuple size, ...) are wrong values, not a reason for the check to stop
+            v = ("malformed-values", f"{type(ex).__name__}: {ex}; output {outs[:2]}")
+    outs = outs or []
     ntup = sum(len(o[1]) for o in outs)
     res.case(
         case_repr={
@@ -271,12 +281,12 @@ def check_history(times, types, part_idx, other_task, passthrough, res, skew=Fal
             "clients_started_at_different_times": skew,
             "failed_requests_with_0_operations": zeros,
             "arrival_order_within_a_batch": "descending sample number" if rev else "ascending sample number",
-            "values": [[round(x[0] - START, 3), str(x[2]), round(x[3], 4)] for o in outs for x in o[1]],
+            "values": [[round(x[0] - START, 3), str(x[2]), round(x[3], 4) if x[3] is not None else None] for o in outs for x in o[1]],
         }
         if res.sample_now(50021)
         else None,
         nontrivial_key=(times, types, part_idx, other_task, passthrough, skew, rev, zeros) if len(times) > 1 else None,
-        outcome_key=(ntup, tuple(round(x[3], 6) for o in outs for x in o[1])),
+        outcome_key=(ntup, tuple(round(x[3], 6) if isinstance(x[3], (int, float)) else repr(x[3]) for o in outs for x in o[1])),
     )
     res.states += len(outs) + 1
     res.transitions += len(outs)
